@@ -264,6 +264,11 @@ pub fn build(p: &Pre, group: u8) -> FuturesUnorderedBounded<Fut> {
 
 /// as `build`, child identities start at `base`
 pub fn build_b(p: &Pre, group: u8, base: usize) -> FuturesUnorderedBounded<Fut> {
+    build_g(p, group, base, Fut::new)
+}
+
+/// as `build_b` for any scripted child type
+pub fn build_g<F>(p: &Pre, group: u8, base: usize, mk: impl Fn(u8) -> F) -> FuturesUnorderedBounded<F> {
     let gh = g();
     let mut i = 0;
     while i < p.cap {
@@ -277,7 +282,7 @@ pub fn build_b(p: &Pre, group: u8, base: usize) -> FuturesUnorderedBounded<Fut> 
     let q = p.q;
     let f = v::fub_from_parts(
         p.cap,
-        |i| if p.occ[i] { Ok(Fut::new((base + i) as u8)) } else { Err(p.nf[i]) },
+        |i| if p.occ[i] { Ok(mk((base + i) as u8)) } else { Err(p.nf[i]) },
         p.free_head,
         p.qlen,
         &q,
@@ -291,7 +296,7 @@ pub fn build_b(p: &Pre, group: u8, base: usize) -> FuturesUnorderedBounded<Fut> 
     while i < p.cap {
         if p.occ[i] && !gh.is_fresh(group as usize, i) {
             if let Some(c) = v::fub_peek(&f, i) {
-                gh.addr[base + i] = c as *const Fut as usize;
+                gh.addr[base + i] = c as *const F as usize;
             }
         }
         i += 1;
@@ -299,7 +304,7 @@ pub fn build_b(p: &Pre, group: u8, base: usize) -> FuturesUnorderedBounded<Fut> 
     f
 }
 
-pub fn snap(f: &mut FuturesUnorderedBounded<Fut>, cap: usize, t: usize) -> Snap {
+pub fn snap<F>(f: &mut FuturesUnorderedBounded<F>, cap: usize, t: usize) -> Snap {
     let w = gh::task_waker(t);
     let s = v::fub_snapshot(f, cap, &w, &|| g().task_wakes[t]);
     core::mem::forget(w);
